@@ -123,7 +123,12 @@ def iterfieldselect(source, field, where, complement, missing):
         try:
             v = getv(row)
         except IndexError:
-            v = missing
+            if len(indices) == 1:
+                v = missing
+            else:
+                # short row, read the missing cells as `missing`
+                v = tuple(row[i] if i < len(row) else missing
+                          for i in indices)
         if bool(where(v)) != complement:  # XOR
             yield tuple(row)
 
